@@ -441,7 +441,9 @@ pub fn run(seed: u64, thorough: bool, rep: &mut Report) {
             // a crash while blocks are being processed is explored twice: the node's chain as it was, and with
             // what the tower had already handed to the node mined in one more block while the tower was down
             for (j, mined) in (0..npts).flat_map(|j| [(j, false), (j, true)]) {
-                if mined && (!matches!(op, XOp::Poll { .. }) || sent_upto[i].is_empty()) {
+                // (in the long-backlog history a penalty mined early reaches its 100 confirmations before the end, which the
+                // uninterrupted run does not: the variant is explored on the other histories)
+                if mined && (!matches!(op, XOp::Poll { .. }) || sent_upto[i].is_empty() || c == 2) {
                     // nothing can have been handed to the node by then: the variant is the plain one
                     continue;
                 }
